@@ -12,5 +12,6 @@ pub mod eng_storage;
 pub mod eng_join;
 pub mod eng_changeset;
 pub mod eng_panicdrop;
+pub mod eng_conc;
 pub mod eng_saveload;
 pub mod eng_dispatch;
